@@ -65,3 +65,23 @@ Definition tags_match_grammar (rd : list reader_row) (wr : list writer_row) (g :
   forallb (fun r => match grammar_lookup g (rr_tag r) with Some w => wire_eqb w (rr_wire r) | None => false end) rd &&
   forallb (fun row => existsb (fun r => (rr_tag r =? fst row) && wire_eqb (rr_wire r) (snd row)) rd) g &&
   forallb (fun w => match grammar_lookup g (wr_tag w) with Some x => wire_eqb x (wr_wire w) | None => false end) wr.
+
+(* ---- the grammar as full tables (tag <-> Go type), so that the generic interpreters of Codec/Value.v can be
+        run on the grammar itself: used only to search for a concrete value / byte string on which the
+        implementation deviates from the grammar when an obligation over the regenerated tables fails ---- *)
+Definition gr (tag : N) (w : wire) (t : gotype) : reader_row := {| rr_tag := tag; rr_wire := w; rr_type := t; rr_inverted := false |}.
+Definition gw (t : gotype) (tag : N) (w : wire) : writer_row := {| wr_type := t; wr_tag := tag; wr_wire := w; wr_inverted := false |}.
+
+Definition g_reader_091 : list reader_row := [
+  gr 116 WBoolOctet TBool; gr 98 (WFixed 1) TInt8; gr 66 (WFixed 1) TUint8; gr 85 (WFixed 2) TInt16; gr 117 (WFixed 2) TUint16;
+  gr 73 (WFixed 4) TInt32; gr 105 (WFixed 4) TUint32; gr 76 (WFixed 8) TInt64; gr 108 (WFixed 8) TUint64;
+  gr 102 (WFixed 4) TFloat32; gr 100 (WFixed 8) TFloat64; gr 68 WDecimal TDecimal; gr 115 WShortstr TString; gr 83 WLongstr TBytes;
+  gr 65 (WArray D091) TArray; gr 84 WTimestamp TTime; gr 70 (WTable D091) TTablePtr; gr 86 WNothing TNil].
+Definition g_reader_rabbit : list reader_row := [
+  gr 116 WBoolOctet TBool; gr 98 (WFixed 1) TInt8; gr 66 (WFixed 1) TUint8; gr 115 (WFixed 2) TInt16; gr 73 (WFixed 4) TInt32;
+  gr 108 (WFixed 8) TInt64; gr 102 (WFixed 4) TFloat32; gr 100 (WFixed 8) TFloat64; gr 68 WDecimal TDecimal; gr 83 WLongstr TString;
+  gr 65 (WArray DRabbit) TArray; gr 84 WTimestamp TTime; gr 70 (WTable DRabbit) TTablePtr; gr 120 WLongstr TBytes; gr 86 WNothing TNil].
+Definition writer_of_readers (rs : list reader_row) (d : dialect) : list writer_row :=
+  map (fun r => gw (rr_type r) (rr_tag r) (rr_wire r)) rs ++ [gw TTableVal 70 (WTable d)].
+Definition g_rd (d : dialect) : list reader_row := match d with D091 => g_reader_091 | DRabbit => g_reader_rabbit end.
+Definition g_wr (d : dialect) : list writer_row := writer_of_readers (g_rd d) d.
